@@ -97,11 +97,16 @@ Choices(m, q, p, s) ==
 ImproveSet(m, q, p) ==
   LET ch == TLCEval([s \in St(m) |-> Choices(m, q, p, s)]) IN
   {n \in [St(m) -> Ac(m)] : \A s \in St(m) : n[s] \in ch[s]}
-\* support of the policy assembled by plan_on: maximisers of action_gain AND of action_bias
+\* support of the policy assembled by plan_on (msdm c58857c): the maximisers of action_gain, and AMONG THEM the
+\* maximisers of action_value (np.where(gain_max, action_bias, -inf)), so no row can come out empty; the code's tie
+\* tolerance is 1e-10 times the largest finite table entry (round-off scales with the tables) - in exact
+\* arithmetic: equality.  At a state where the rule is a maximiser of both tables (every state of a run that
+\* stopped by its own test) this is the same set as "gain maximisers AND overall value maximisers".
 Support(m, gqq, bqq) ==
   LET ab == AbsM(m) IN
   [s \in St(m) |->
-     {a \in Avail(m, s) : gqq[s][a] = MaxOver(m, gqq, s) /\ (s \in ab \/ bqq[s][a] = MaxOver(m, bqq, s))}]
+     LET gm == {a \in Avail(m, s) : gqq[s][a] = MaxOver(m, gqq, s)} IN
+     {a \in gm : s \in ab \/ bqq[s][a] = RMaxSet({bqq[s][b] : b \in gm})}]
 
 \* ------------------------------------------------------------------ machine
 Init ==
